@@ -2,6 +2,7 @@
 // only after every body of the group has stopped; nothing starts afterwards; functor copies are destroyed exactly once; the group is reusable.
 //   args: P seed n scenario nthrow     scenario: 0 task_group | 1 parallel_for | 2 parallel_reduce | 3 parallel_for_each | 4 parallel_invoke |
 //                                                5 parallel_pipeline | 6 flow graph | 7 task_arena::execute | 8 nested parallel_for in task_group | 9 400 warm rounds, simultaneous throwers |
+//                                                11 a body throws AFTER a nested library call that completed (re-entrant execute, flow graph, nested loop, isolate, nested task_group) |
 //                                                10 the k-th Range split / Body copy (split) constructor throws: parallel_for x 4 partitioners, parallel_reduce
 //   output: CAUGHT k (number of exceptions delivered to the caller, must be 1 if any thrower ran else 0) BADVALUE RUNNINGATRETURN STARTEDAFTER LEAK NOTREUSABLE THROWERS k
 #include "common.h"
@@ -107,6 +108,35 @@ int main(int argc, char** argv) {
             tbb::task_arena a(std::max(1, P / 2));
             guard([&] { a.execute([&] { tbb::parallel_for(0, n, [pr](int i) { body(i); }); }); });
             int ok = 0; a.execute([&] { ok = 1; }); if (!ok) notreusable++;
+        } else if (sc == 11) {
+            // a body makes a nested library call that completes normally (execute() on the arena it is already in, a flow graph run to completion, a nested loop,
+            // an isolated region, a nested task_group) and throws AFTERWARDS: the exception must still reach the call that waits for the body's own group
+            long wrong = 0;
+            tbb::task_arena a(std::max(2, P));
+            for (int outer = 0; outer < 3; ++outer) for (int pre = 0; pre < 6; ++pre) for (int rep = 0; rep < 4; ++rep) {
+                auto nested = [&, pre] {
+                    switch (pre) {
+                    case 0: a.execute([] {}); break;
+                    case 1: { tbb::flow::graph g; tbb::flow::function_node<int, int> f(g, tbb::flow::unlimited, [](int v) { return v; }); f.try_put(1); g.wait_for_all(); } break;
+                    case 2: tbb::parallel_for(0, 8, [](int) {}); break;
+                    case 3: tbb::this_task_arena::isolate([] { tbb::parallel_for(0, 8, [](int) {}); }); break;
+                    case 4: { tbb::task_group t2; t2.run_and_wait([] {}); } break;
+                    default: a.execute([] { tbb::parallel_for(0, 8, [](int) {}); }); break;
+                    }
+                };
+                long c0 = 0; bool got = false;
+                auto thrower = [&] { nested(); throw Ex(-5); };
+                try {
+                    a.execute([&] {
+                        if (outer == 0) { tbb::task_group tg; tg.run([&] { for (volatile int k = 0; k < 300; ++k) {} }); tg.run_and_wait(thrower); }
+                        else if (outer == 1) tbb::parallel_for(0, 4, [&](int i) { if (i == 1) thrower(); });
+                        else { tbb::task_group tg; tg.run(thrower); tg.wait(); }
+                    });
+                } catch (Ex& e) { got = e.id == -5; } catch (...) {}
+                (void)c0;
+                if (!got) wrong++;
+            }
+            badvalue = wrong; caught = 0; g_threw = 0;
         } else if (sc == 10) {
             long wrong = 0;
             for (int alg = 0; alg < 5; ++alg) for (int what = 0; what < 2; ++what) for (int k = 1; k <= 6; ++k) {
